@@ -39,7 +39,7 @@ def param_order(chk, got, dep_enum):
     cases, _ = callrun.tlc.emit_cases('Call', callrun._cfg('Call.emit.small.cfg', dep_enum), deadlock=False, simulate=400, depth=8,
                                       seed=chk.seed, timeout=600)
     flat = {c['method']: c['flat'] for c in cases}
-    pname = lambda f: {'inner.name': 'name', 'class': 'class_'}.get(f, f)
+    pname = lambda f: {'inner.name': 'name', 'inner.tags': 'tags', 'class': 'class_'}.get(f, f)
     for m, fl in flat.items():
         want = [pname(f) for f in fl]
         for cls in ('ThingsClient', 'ThingsAsyncClient'):
